@@ -37,6 +37,9 @@ def payload_sweep(ctx, execs):
     for p in conc:
         for k in range(2 if ctx.quick else 8):
             items.append((p, {"seed": 170 + k, "api_latency": (0.3, 0.05)[k % 2], "max_inv": 12, "strategy": "pct" if k % 2 else "random"}))
+    # invoke payloads of every JSON shape, including strings whose text is itself JSON (must go out encoded exactly once)
+    for k, pl in enumerate(["12345", "true", "null", "{\"order\": 7}", "[1, 2]", "plain text", "", 0, None, False, [1, "2"], {"a": {"b": None}}, 3.5]):
+        items.append(({"nodes": [{"k": "invoke", "payload": pl, "caught": True}, {"k": "step"}]}, {"seed": 190 + k, "max_inv": 8}))
     out = run_campaign(ctx, items)
     for e in out:
         oracles.c14(ctx, e)
